@@ -4,9 +4,10 @@ property it breaks (quick tier by default) and expects exit 1; undoes the change
 usage: selftest/run_seeded.py [--tier quick|thorough] [--only substring ...]"""
 import glob, json, os, subprocess, sys, time
 ROOT = os.path.dirname(os.path.dirname(os.path.abspath(__file__)))
+REPO = os.environ.get("VERIF_REPO", "/repo")
 
 def sh(cmd, cwd=None):
-    p = subprocess.run(cmd, cwd=cwd, shell=isinstance(cmd, str), stdout=subprocess.PIPE, stderr=subprocess.STDOUT)
+    p = subprocess.run(cmd, cwd=cwd, shell=isinstance(cmd, str), stdout=subprocess.PIPE, stderr=subprocess.STDOUT, env=dict(os.environ, VERIF_REPO=REPO))
     return p.returncode, p.stdout.decode("utf-8", "replace")
 
 def main():
@@ -16,7 +17,7 @@ def main():
         x = a.pop(0)
         if x == "--tier": tier = a.pop(0)
         elif x == "--only": only = a; break
-    if sh("git status --porcelain", "/repo")[1].strip():
+    if sh("git status --porcelain", REPO)[1].strip():
         print("/repo is not clean"); sys.exit(3)
     rows = []
     for d in sorted(glob.glob(os.path.join(ROOT, "seeded", "*"))):
@@ -24,7 +25,7 @@ def main():
         if only and not any(o in name for o in only): continue
         meta = json.load(open(os.path.join(d, "meta.json")))
         pids = meta.get("checks") or [meta["property"]]
-        rc, out = sh(["git", "apply", os.path.join(d, "patch.diff")], "/repo")
+        rc, out = sh(["git", "apply", os.path.join(d, "patch.diff")], REPO)
         if rc != 0:
             rows.append((name, "PATCH-DOES-NOT-APPLY", out.strip()[:80])); print(name, "patch does not apply"); continue
         res = {}
@@ -32,7 +33,7 @@ def main():
             t0 = time.time()
             rc, out = sh(["./check", pid, tier], ROOT)
             res[pid] = (rc, round(time.time() - t0))
-        sh("git checkout -- . && git clean -fdq", "/repo")
+        sh("git checkout -- . && git clean -fdq", REPO)
         sh("rm -rf %s/.work/* %s/replays" % (ROOT, ROOT))
         verdict = "CAUGHT" if all(v[0] == 1 for v in res.values()) else "MISSED"
         rows.append((name, verdict, " ".join("%s rc=%d %ds" % (k, v[0], v[1]) for k, v in res.items())))
